@@ -7,7 +7,27 @@ use crate::model::*;
 use crate::spec::*;
 use std::ffi::OsString;
 
-fn tail_token(rng: &mut Rng, c: &CmdSpec, root: &CmdSpec, allow_non_utf8: bool) -> Vec<u8> {
+fn tail_token(rng: &mut Rng, c: &CmdSpec, root: &CmdSpec, allow_non_utf8: bool, term: Option<&str>) -> Vec<u8> {
+    // a token that differs from the positional's value terminator only in letter case is a value
+    if let Some(t) = term {
+        if rng.chance(1, 5) {
+            let v: String = t.chars().enumerate().map(|(i, ch)| if (rng.below(2) == 0) == (i % 2 == 0) { ch.to_ascii_uppercase() } else { ch }).collect();
+            if v != t {
+                return v.into_bytes();
+            }
+            return t.to_ascii_uppercase().into_bytes();
+        }
+    }
+    loop {
+        let t = tail_token_inner(rng, c, root, allow_non_utf8);
+        if term.map(|x| x.as_bytes() == t.as_slice()).unwrap_or(false) {
+            continue; // the exact terminator would end the positional (outside the premise)
+        }
+        return t;
+    }
+}
+
+fn tail_token_inner(rng: &mut Rng, c: &CmdSpec, root: &CmdSpec, allow_non_utf8: bool) -> Vec<u8> {
     let empty = crate::gen::LevelNames { longs: vec![], shorts: vec![], subs: vec![], terms: vec![], delims: vec![] };
     let names = level_names(c, &empty);
     let rnames = level_names(root, &empty);
@@ -72,6 +92,8 @@ pub fn case(seed: u64, st: &mut Stats) {
     let last = rng.coin();
     let delim = if rng.chance(1, 5) { Some(',') } else { None };
     let min = rng.below(2);
+    let term: Option<String> = if rng.chance(1, 5) { Some("end".into()) } else { None };
+    let term_ignore_case = rng.coin();
     {
         let lvl: &mut CmdSpec = if at_sub { &mut root.subs[sub_idx] } else { &mut root };
         lvl.args.retain(|a| !a.is_positional());
@@ -85,6 +107,8 @@ pub fn case(seed: u64, st: &mut Stats) {
             num_args: Some((min, usize::MAX)),
             last,
             delim,
+            terminator: term.clone(),
+            ignore_case: term.is_some() && term_ignore_case,
             vp: Some(if os_parser { Vp::Os } else { Vp::Str }),
             ..Default::default()
         });
@@ -134,11 +158,24 @@ pub fn case(seed: u64, st: &mut Stats) {
         // prefix: an intent for the path down to the tail level, without values for `rest`
         let mut intent = gen_intent(&mut rng, &root, &io);
         fn strip(li: &mut LevelIntent, c: &CmdSpec) {
-            li.items.retain(|it| !matches!(it, Item::Pos { arg, .. } if c.args[*arg].id == "rest"));
             // a terminator that closed the removed positional goes with it
-            while matches!(li.items.last(), Some(Item::Term { tok }) if !tok.is_empty()) && !matches!(li.items.iter().rev().nth(1), Some(Item::Opt { .. })) {
-                li.items.pop();
+            let mut out = vec![];
+            let mut dropped = false;
+            for it in li.items.drain(..) {
+                match &it {
+                    Item::Pos { arg, .. } if c.args[*arg].id == "rest" => {
+                        dropped = true;
+                        continue;
+                    }
+                    Item::Term { tok } if dropped && !tok.is_empty() => {
+                        dropped = false;
+                        continue;
+                    }
+                    _ => dropped = false,
+                }
+                out.push(it);
             }
+            li.items = out;
             li.external = None;
         }
         if at_sub {
@@ -215,7 +252,10 @@ pub fn case(seed: u64, st: &mut Stats) {
             }
         }
         let ntail = rng.below(6);
-        let tail: Vec<Vec<u8>> = (0..ntail).map(|_| tail_token(&mut rng, lvl, &root, os_parser)).collect();
+        let tail: Vec<Vec<u8>> = (0..ntail).map(|_| tail_token(&mut rng, lvl, &root, os_parser, term.as_deref())).collect();
+        if term.is_some() && !tail.is_empty() {
+            st.count("tail.terminator-declared");
+        }
         let mut argv = prefix.clone();
         argv.push("--".into());
         argv.extend(tail.iter().map(|t| os(t)));
